@@ -84,7 +84,7 @@ def run(ctx):
         inputs.append(pcommon.mutate(rng, gen_prog.gen_class_program(rng)[0]))
     # truncation at every token boundary
     cs = pcommon.corpus()
-    for t in (cs if ctx.tier == "thorough" or ctx.escalated else rng.sample(cs, 25)):
+    for t in (cs if ctx.tier == "thorough" else rng.sample(cs, 60 if ctx.escalated else 25)):
         for p in token_boundaries(t):
             inputs.append(t[:p])
     # nesting depth
